@@ -177,7 +177,7 @@ theorem serView_single' (F : Facts) (c : Ctx) {r : AttrRef} {v v' : View} (h : A
 /-! ### C07: the view does not depend on map / insertion order -/
 
 def Facts.allSorted (F : Facts) : Bool :=
-  F.hashMapSorted && F.providesSorted && F.depsSorted && F.outputNamesSorted && F.buildInputsSorted
+  F.hashMapSorted && F.providesSorted && F.depsSorted && F.outputNamesSorted && F.buildInputsSorted && F.namedSrcsSorted
 
 /-- `none`/`none`, or two permutations of each other (a nil-able Go map). -/
 def OptPerm {α : Type} : Option (List α) → Option (List α) → Prop
@@ -259,7 +259,7 @@ theorem getCommand_optPerm (c : Ctx) {a b : Option (List (Bytes × Bytes))} (hn 
 theorem view_perm (F : Facts) (hF : F.allSorted = true) (c : Ctx) {t t' : Target} (ok : MapsOK t) (p : PermEq t t') :
     view F c t = view F c t' := by
   simp only [Facts.allSorted, Bool.and_eq_true] at hF
-  obtain ⟨⟨⟨⟨h1, h2⟩, h3⟩, h4⟩, h5⟩ := hF
+  obtain ⟨⟨⟨⟨⟨h1, h2⟩, h3⟩, h4⟩, h5⟩, h6⟩ := hF
   have e1 := isort_labels_perm p.deps
   have e2 := keysOrder_perm ok.namedSrcs p.namedSrcs
   have e3 := keysOrder_perm ok.namedOuts p.namedOuts
@@ -271,7 +271,7 @@ theorem view_perm (F : Facts) (hF : F.allSorted = true) (c : Ctx) {t t' : Target
   have e8 := fun s => getCommand_optPerm c ok.commands p.commands s
   have e9 := fun s => getCommand_optPerm c ok.testCommands p.testCommands s
   rw [p.rest]
-  simp only [view, allInputs, h1, h2, h3, h4, h5, if_true, View.mk.injEq]
+  simp only [view, allInputs, h1, h2, h3, h4, h5, h6, if_true, View.mk.injEq]
   repeat' constructor
   all_goals first
     | trivial
